@@ -453,8 +453,9 @@ CHECKS.update({
 CHECKS.update({
     "C05": {"family": "values", "level": "model_checking",
             "rule": "digit strings: every value within +-40 (thorough +-300) of 2^7..2^64, 10^9..10^21, 2^64/10, with and without sign, "
-                    "followed by 17 (thorough: all 256) next bytes; 1..24-digit 1/9/10^n ladders; special forms; random digit strings; "
-                    "each through 6 readers and 6 Decode forms; distinct = distinct input; non-trivial = longer than one byte",
+                    "followed by 17 (thorough: all 256) next bytes; 1..24-digit 1/9/10^n ladders; a sign followed by every byte value; "
+                    "leading whitespace 0..24 x digit runs 1..24; digit runs with one position replaced; special forms; random digit "
+                    "strings; each through 6 readers and 6 Decode forms; distinct = distinct input; non-trivial = longer than one byte",
             "technique": "TLA+ digit-sequence spec of integer tokens and ranges (R1 exhaustive on scaled-down types) + TLC validation of recorded reads (R3)",
             "level_text": "IntRead is defined over digit sequences in TLA+ and model-checked exhaustively against integer arithmetic on "
                           "8-bit types; every recorded call of the twelve integer entry points is recomputed by TLC (success, exact "
@@ -472,7 +473,9 @@ CHECKS.update({
             "level_note": MC_NOTE},
     "C12": {"family": "values", "level": "model_checking",
             "rule": "9 Decode functions x (fixed zoo of null forms, literals, numbers at type bounds, strings; every one-byte corruption of "
-                    "null; random scalar documents and mutations) x 2 distinctive prior target values each",
+                    "null; every 1- and 2-byte malformed prefix followed by null / true / 1 / a string; random scalar documents and "
+                    "mutations) x distinctive and zero-valued prior targets (incl. -0), plus sequences of DecodeString calls into one "
+                    "target with one scratch",
             "technique": "TLA+ DecodeSpec (reader outcome x null x prior target, R1 exhaustive) + TLC validation of recorded Decode calls against the recorded reader outcome (R3)",
             "level_text": "DecodeSpec is a function of the corresponding reader's outcome, the input and the prior target; TLC checks every "
                           "recorded call (two different non-zero priors per input, so a write of any constant is seen).",
@@ -480,7 +483,8 @@ CHECKS.update({
     "C13": {"family": "values", "level": "model_checking",
             "rule": "every byte value after every whitespace prefix of length <= 3 over the four whitespace bytes (85 x 257, exhaustive); "
                     "every one-byte corruption (256 values at each position), truncation and following byte of true/false/null with 4 "
-                    "whitespace prefixes; first-token zoo; random documents; 13 typed readers observed on every input",
+                    "whitespace prefixes and padding of several lengths; whitespace runs 0..17 x every byte value x padded tails; "
+                    "first-token zoo; random documents; 13 typed readers observed on every input",
             "technique": "TLA+ token table and literal acceptors + exhaustive byte x whitespace-prefix sweep validated by TLC (R3)",
             "level_text": "The token table, whitespace set and literal acceptors are TLA+ definitions; the enumerated input sets are "
                           "complete for the stated shapes and every recorded result is recomputed by TLC; type exclusivity is asserted "
@@ -506,10 +510,12 @@ CHECKS.update({
 CHECKS.update({
     "C04": {"family": "floats", "level": "exploration",
             "rule": "literals: exact halfway points between adjacent float64s (random, near powers of two, subnormal, near max) and their "
-                    "neighbours (last digit +-1, appended digits) in several spellings; overflow/underflow thresholds; mantissa lengths 1..1100 x "
-                    "exponent windows; every row of the 696-row power-of-ten table with short, 19-digit and truncated mantissas plus hook-guided "
-                    "search for the wide-multiplication branch; >800-digit mantissas; random literals; each followed by a non-continuation byte; "
-                    "through ReadFloat64, DecodeFloat64, ReadValue and strconv.ParseFloat; distinct = distinct input",
+                    "neighbours (last digit +-1, appended digits) in several spellings; overflow/underflow thresholds; mantissa lengths "
+                    "1..1100 x exponent windows; the deciding digit placed at 19, 20, 767..769, 799..802, 900 significant digits; zeros of "
+                    "every spelling and length with both signs; digit runs 1..24 in every part x next byte; every row of the 696-row "
+                    "power-of-ten table with short, 19-digit and truncated mantissas plus hook-guided search for the wide-multiplication "
+                    "branch; >800-digit mantissas; random literals; each followed by a non-continuation byte; through ReadFloat64, "
+                    "DecodeFloat64, ReadValue and strconv.ParseFloat; distinct = distinct input",
             "technique": "TLA+ exact-arithmetic rounding relation (limb bignums; R1 on a scaled-down format) evaluated by TLC on recorded conversions (R3); path hook for coverage",
             "level_text": "A sampled infinite domain with an exact oracle: 'nearest, ties to even, sign of zero, overflow threshold, end offset' is a "
                           "TLA+ relation over unbounded naturals which TLC evaluates for every recorded result (and for strconv's). The relation's "
@@ -521,16 +527,18 @@ CHECKS.update({
 CHECKS.update({
     "C03": {"family": "trees", "level": "model_checking",
             "rule": "documents: tree shapes (duplicate keys in raw and escaped spelling, empty containers, big-then-small siblings, numbers "
-                    "incl. overflow, invalid UTF-8, malformed variants), (reachable states of the TLA+ machine x byte-class members x "
-                    "completion), depth 9999/10000/10001 in 6 array/object mixtures with the real constant, TLC random walks, corpus, random "
-                    "documents with mutations; each through ReadValue, a reused ValueReader, ReadObject, ReadArray and json.Unmarshal; "
-                    "distinct = distinct input; non-trivial = longer than one byte",
+                    "incl. overflow, boundary code points as escapes, invalid UTF-8 in keys and values before every kind of value, "
+                    "malformed variants), (state bases and every transition base of the TLA+ machine x one member of every byte class x "
+                    "completion / reject continuation), depth 9999/10000/10001 in 6 array/object mixtures with the real constant, TLC "
+                    "random walks, corpus, random documents with mutations; each through ReadValue, a reused ValueReader with a fixed "
+                    "warm-up history, ReadObject, ReadArray and json.Unmarshal; distinct = distinct input; non-trivial = longer than one "
+                    "byte",
             "technique": "TLA+ recursive-descent grammar producing value trees (R1: equals the pushdown machine) + TLC tree matching of recorded decodes, float leaves by the rounding relation (R3)",
             "level_text": "The value tree (last duplicate wins, decoded strings and keys, numbers as literals) is computed by TLC from "
                           "JSONGrammar for every recorded call and matched against the canonicalised result; success is required exactly "
                           "when the grammar accepts, depth <= 10000 and no number overflows; encoding/json's tree must match after the "
                           "specification's UTF-8 replacement.",
-            "level_note": MC_NOTE + "; trees deeper than 200 are checked for success/offset only (recorded as 'big')"},
+            "level_note": MC_NOTE + "; trees deeper than 100 are checked for success/offset only (recorded as 'big')"},
 })
 
 CHECKS.update({
@@ -548,18 +556,18 @@ CHECKS.update({
 
 CHECKS.update({
     "C14": {"family": "hist", "level": "model_checking",
-            "rule": "histories of 2..6 calls on one Buffer over Valid, SkipValue, SkipValueFast, HandleArrayValues, HandleObjectValues x a document "
+            "rule": "all ordered pairs of (document at / around / beyond the depth limit, function) steps on one Buffer, and histories of 2..6 calls on one Buffer over Valid, SkipValue, SkipValueFast, HandleArrayValues, HandleObjectValues x a document "
                     "alphabet with one representative per outcome class (shallow/deep ok, syntax error at depth, depth-limit error, truncated deep "
                     "nests, 10000/10001 nests, random containers and mutations) x 7 handler behaviours (return 0; exact offset via SkipValue / "
                     "SkipValueFast on the enclosing buffer; abort with an error at call k; recursive nested traversals sharing the buffer; Valid on "
                     "the same buffer; unrelated deep and failing documents through the same buffer mid-traversal); every step is also run with no "
                     "buffer; distinct = distinct history",
-            "technique": "TLA+ model of slice headers/arrays/activations (NoStaleRead, R1 with a negative config) + TLC validation of recorded histories: shared-buffer outcome = nil-buffer outcome = spec (R3)",
+            "technique": "TLA+ model of slice headers/arrays/activations (NoStaleRead, R1 with a negative config) + TLC validation of recorded histories: shared-buffer outcome = nil-buffer outcome = spec (R3) + trace validation of the machines' internal stack events (hook H3) against the StackBuf actions (conformance notes)",
             "level_text": "The stack discipline (local header and top per activation, handler invoked only at top = 0, header stored back on "
                           "every exit, in-place vs re-allocating growth) is model-checked for stale reads, with a negative configuration that "
                           "must fail; recorded histories including re-entrant sharing are checked step by step by TLC against the no-buffer "
                           "outcome and the history-free specification.",
-            "level_note": MC_NOTE + "; outcomes are observed at the API (results and handler call logs), not inside the stack"},
+            "level_note": MC_NOTE + "; verdicts come from outcomes observed at the API (results and handler call logs); the stack events recorded through hook H3 bind the StackBuf model to the code and produce notes only"},
     "C15": {"family": "hist", "level": "model_checking",
             "rule": "histories of 2..6 ReadValue/ReadObject/ReadArray calls on one ValueReader over tree-shape documents, random documents and "
                     "mutations, 10001-deep and truncated deep nests, with forced GCs (sync.Pool perturbation), input overwritten after every "
@@ -573,22 +581,28 @@ CHECKS.update({
 
 CHECKS.update({
     "C19": {"family": "alloc", "level": "exploration",
-            "rule": "testing.AllocsPerRun over: 14 integer/float entry points x integers at type bounds; ReadFloat64/DecodeFloat64 x literals on "
-                    "every conversion path (hook-confirmed, incl. the multiprecision fallback) and random literals; bool/null/token readers; "
-                    "ReadStringBytes/UnescapeStringContent x strings with escapes, pairs, invalid UTF-8 x destination prefix/slack with capacity "
-                    ">= input length; SkipValue/SkipValueFast/Valid/HandleArrayValues/HandleObjectValues (handlers returning 0 or the exact offset "
-                    "via SkipValue) x nests up to 9999 and random containers with a Buffer warmed on a document at least as deep; "
-                    "distinct = distinct (function, input, destination shape)",
+            "rule": "testing.AllocsPerRun over: 14 integer/float entry points x integers at type bounds; ReadFloat64/DecodeFloat64 x "
+                    "literals on every conversion path (hook-confirmed, incl. the multiprecision fallback) and random literals; "
+                    "bool/null/token readers; ReadStringBytes/UnescapeStringContent x strings with escapes, pairs, invalid UTF-8 x "
+                    "destination prefix/slack with capacity >= input length; "
+                    "SkipValue/SkipValueFast/Valid/HandleArrayValues/HandleObjectValues (handlers returning 0 or the exact offset via "
+                    "SkipValue) x nests up to 9999 and random containers with a Buffer warmed on a document at least as deep - by the same "
+                    "function, by every other function (first call measured), and after short calls of every function in between; distinct "
+                    "= distinct (function, input, destination shape)",
             "technique": "TLA+ ZeroOwed predicate (success, buffer warm depth via the machine's MaxDepthReached, destination capacity) decides when zero is owed; allocation counts recorded by the Go runtime validated by TLC (R3)",
             "level_text": "The allocation count is measured by the Go runtime; the specification decides from the history (warm-up document "
                           "depth computed with the grammar machine, destination capacity, success) whether zero is owed, and TLC checks "
                           "owed => 0 on every recorded measurement; the run is rejected as vacuous if fewer than 100 obligations were owed.",
-            "level_note": "sampled inputs; numbers come from testing.AllocsPerRun (5 runs after one warm call); handlers are pre-allocated pointer receivers"},
+            "level_note": "sampled inputs; numbers come from testing.AllocsPerRun (5 runs after one warm call; re-measured when non-zero) or, "
+                    "where the first call matters, from a single-shot runtime.MemStats.Mallocs delta; handlers are pre-allocated pointer "
+                    "receivers; the cross-function warm-up pairs that allocate on the pinned code are listed in known-findings.txt"},
     "C20": {"family": "alloc", "level": "model_checking",
-            "rule": "bytes allocated (runtime.MemStats.TotalAlloc) for 16 document shapes (ordinary and adversarial: big container then small "
-                    "siblings/children, alternating sizes, escapes at every nesting level, escape then long tail, deep nests) at 3 (thorough 4) "
-                    "scales 4x apart through ReadValue / SkipValue / Valid / SkipValueFast / traversals, plus 9 histories on one reader/buffer "
-                    "(large document, then 2000 (thorough 20000) small succeeding or failing documents); GOMAXPROCS fixed to 4",
+            "rule": "bytes allocated (runtime.MemStats.TotalAlloc) for ~100 document shapes (ordinary and adversarial: every combination of "
+                    "outer container x wrapped large first child x kind of small later children, alternating sizes, escapes at every "
+                    "nesting level, long strings of unicode / surrogate / simple escapes, escape then long tail, deep nests) at 3 (thorough "
+                    "4) scales 4x apart through ReadValue / SkipValue / Valid / SkipValueFast / traversals / ReadString / ReadStringBytes, "
+                    "plus ~70 histories on one reader/buffer (large document through every reader function, then 2000 (thorough 20000) "
+                    "small succeeding or failing documents); GOMAXPROCS fixed to 4",
             "technique": "TLA+ allocation-policy model with amortised-linearity invariant (R1; three negative configs reproduce the pre-fix policies) + TLC accounting of recorded allocation totals: absolute bound and scale-ratio test (R3)",
             "level_text": "The hint and scratch policies are model-checked for amortised linearity (alloc <= 2*input + potential) and the three "
                           "pre-fix policies are kept as configurations that must fail; measured totals are checked by TLC against "
@@ -600,9 +614,11 @@ CHECKS.update({
 
 CHECKS.update({
     "C18": {"family": "conc", "level": "exploration",
-            "rule": "12 goroutines x rounds with GOMAXPROCS 1,2,4,16 (thorough: 8 rounds), each goroutine running the parse, tree, traversal, "
-                    "integer, float, string, token, Decode and sanitising observers over the same shared read-only inputs in its own random "
-                    "order with private buffers/readers/destinations; binary built with -race; distinct = distinct (observer, input)",
+            "rule": "12 goroutines x rounds with GOMAXPROCS 1,2,4,16 (thorough: 8 rounds): after a start barrier a first-use storm (every "
+                    "value of TokenType, every entry point on tiny inputs), then barrier-separated phases in which all goroutines run the "
+                    "parse, tree, traversal, integer, float, string, token, Decode and sanitising observers over the same window of six "
+                    "shared read-only inputs (half of them in their own order) with private buffers/readers/destinations; malformed nested "
+                    "documents included; binary built with -race; distinct = distinct (observer, input)",
             "technique": "TLA+ model of independent processes (R1: results are functions of own arguments; negative config with shared scratch) + every concurrent result validated by TLC against the sequential specifications (R3); Go race detector as the observer of the no-race clause",
             "level_text": "Real interleavings are sampled by the Go scheduler, not enumerated; each recorded result of each goroutine is "
                           "validated by TLC against the sequential specification of the call (that is 'exactly the results they produce one "
